@@ -29,6 +29,7 @@ import (
 	"math/big"
 	"math/rand"
 	"net/http"
+	"net/http/httptest"
 	"os"
 	"path"
 	"sort"
@@ -856,8 +857,9 @@ type c01Call struct {
 	checkSig       bool // vc: checkSignature; vp: verifyVCs
 	label, base    string
 	mut, path      string
-	via            string // "" = verifier.Verify / VerifyVP directly, "api" = the REST API wrapper's handlers
-	option         *bool  // api: allowUntrustedIssuer (vc) / verifyCredentials (vp)
+	via            string            // "" = verifier.Verify / VerifyVP directly, "api" = the REST API wrapper's handlers, "sig" = VerifySignature only
+	ver            verifier.Verifier // nil = the verifier node's long-lived instance
+	option         *bool             // api: allowUntrustedIssuer (vc) / verifyCredentials (vp)
 }
 
 func (n *c01Nodes) run(o *c01Out, c c01Call) string {
@@ -916,6 +918,10 @@ func (n *c01Nodes) run(o *c01Out, c c01Call) string {
 						err = errors.New(msg)
 					}
 				}
+			} else if c.via == "sig" {
+				err = n.ver.VerifySignature(*cred, at)
+			} else if c.ver != nil {
+				err = c.ver.Verify(*cred, c.allowUntrusted, c.checkSig, at)
 			} else {
 				err = n.ver.Verify(*cred, c.allowUntrusted, c.checkSig, at)
 			}
@@ -1780,6 +1786,31 @@ func (n *c01Nodes) generate(o *c01Out, rnd *rand.Rand, thorough bool) {
 		n.run(o, c01Call{kind: b.kind, text: b.text, at: &okAt, allowUntrusted: false, checkSig: true, label: b.label, base: b.label})
 		bases = append(bases, b)
 	}
+	// documents whose signing key is authorised only for PART of the history (scanned over time on the one long-lived verifier):
+	// I#k2 (added at +1000), D#k1 (DID deactivated at +500: a credential and a presentation signed by it)
+	for _, f := range []string{vc.JSONLDCredentialProofFormat, vc.JWTCredentialProofFormat} {
+		for _, x := range []struct{ label, did, kid string }{{"late-key:", didI, didI + "#k2"}, {"deact:", didD, didD + "#k1"}} {
+			b := c01Base{label: x.label + f, kind: "vc", text: n.handIssue(x.did, x.kid, f, issuedAt), issued: issuedAt}
+			when := okAt
+			if x.did == didI {
+				when = c01T0 + 1100 // #k2 is an assertion key from +1000
+			}
+			n.run(o, c01Call{kind: "vc", text: b.text, at: &when, allowUntrusted: false, checkSig: true, label: b.label, base: b.label})
+			bases = append(bases, b)
+		}
+	}
+	{
+		dd := didD
+		exp := c01T0 + 4000
+		for _, f := range []string{holder.JSONLDPresentationFormat, holder.JWTPresentationFormat} {
+			b := c01Base{label: "vp-deact:" + f, kind: "vp", text: n.present(nil, f, didD, &dd, issuedAt+20, &exp, false), issued: issuedAt + 20, expires: &exp}
+			n.run(o, c01Call{kind: "vp", text: b.text, at: &okAt, allowUntrusted: false, checkSig: true, label: b.label, base: b.label})
+			bases = append(bases, b)
+		}
+	}
+	// 2g. the node as it is CONFIGURED at start-up: the real jsonld module in strict mode (the default) must not fetch contexts that are
+	// not on its allow list — a sender-chosen context could map renamed members back onto the signed IRIs
+	n.strictNode(o, creds, okAt)
 	// 3. time / key-history / trust / revocation scan on the unmodified documents
 	n.scan(o, rnd, bases, thorough)
 }
@@ -2554,6 +2585,67 @@ func (n *c01Nodes) multiMutate(o *c01Out, rnd *rand.Rand, b c01Base, at int64, i
 		label: b.label + "~multi" + strconv.Itoa(i) + ":" + strings.Join(kinds, "+"), base: b.label, mut: "multi:" + strings.Join(kinds, "+"), path: strings.Join(paths, "+")})
 }
 
+const c01AttackerContext = `{"@context": {"@version": 1.1,
+  "ORGANIZATION": {"@id": "http://schema.org/organization", "@type": "@id",
+    "@context": {"@version": 1.1, "city": "http://schema.org/legalname", "name": "http://schema.org/city"}},
+  "notTheUserContext": "https://nuts.nl/credentials/v1#userContext"}}`
+
+// strictNode: a verifier wired like vcr.Configure does, with jsonld.NewJSONLDInstance().Configure(core.NewServerConfig()) (strict mode)
+func (n *c01Nodes) strictNode(o *c01Out, creds map[string]string, okAt int64) {
+	cfg := core.NewServerConfig()
+	if !cfg.Strictmode {
+		n.w.t.Fatal("strict mode is expected to be the default")
+	}
+	sj := jsonld.NewJSONLDInstance()
+	if err := sj.(core.Configurable).Configure(*cfg); err != nil {
+		n.w.t.Fatal(err)
+	}
+	requests := 0
+	attacker := httptest.NewServer(http.HandlerFunc(func(w http.ResponseWriter, r *http.Request) {
+		requests++
+		w.Header().Set("Content-Type", "application/ld+json")
+		_, _ = w.Write([]byte(c01AttackerContext))
+	}))
+	defer attacker.Close()
+	url := attacker.URL + "/context.jsonld"
+	sver := verifier.NewVerifier(n.vstore, n.w, n.kr, sj, n.vTrust, revocation.NewStatusList2021(n.vdb, n.http, ""))
+	edit := func(text string, f func(m map[string]any)) string {
+		var m map[string]any
+		_ = json.Unmarshal([]byte(text), &m)
+		m["@context"] = append(m["@context"].([]any), url)
+		f(m)
+		return mustJSON(m)
+	}
+	org, auth := creds["org:ldp_vc"], creds["auth:ldp_vc"]
+	legs := []struct{ label, text, mut string }{
+		{"strict:org:ldp_vc", org, ""},
+		{"strict:auth:ldp_vc", auth, ""},
+		{"strict:org~extra-remote-context", edit(org, func(m map[string]any) {}), "remote-context"},
+		{"strict:org~claims-swapped-via-remote-context", edit(org, func(m map[string]any) {
+			cs := m["credentialSubject"].(map[string]any)
+			o := cs["organization"].(map[string]any)
+			delete(cs, "organization")
+			cs["ORGANIZATION"] = map[string]any{"name": o["city"], "city": o["name"]}
+		}), "remote-context"},
+		{"strict:auth~restriction-hidden-via-remote-context", edit(auth, func(m map[string]any) {
+			r := m["credentialSubject"].(map[string]any)["resources"]
+			var res map[string]any
+			if l, ok := r.([]any); ok {
+				res = l[0].(map[string]any)
+			} else {
+				res = r.(map[string]any)
+			}
+			res["notTheUserContext"] = res["userContext"]
+			delete(res, "userContext")
+		}), "remote-context"},
+	}
+	for _, l := range legs {
+		n.run(o, c01Call{kind: "vc", text: l.text, at: &okAt, allowUntrusted: false, checkSig: true, label: l.label, base: map[bool]string{true: l.label, false: "strict:org:ldp_vc"}[l.mut == ""], mut: l.mut, ver: sver})
+	}
+	o.emit(map[string]any{"op": "expect", "label": "strict-mode:no-request-to-unlisted-context-host", "expect": "requests=0", "kind": "strict-mode-context-fetch"},
+		"requests="+strconv.Itoa(requests))
+}
+
 // handIssue: a plain credential of `issuerDID` for the holder, signed with key `kid` through the real proof builder / JWT signer
 func (n *c01Nodes) handIssue(issuerDID, kid, format string, at int64) string {
 	u := ssi.MustParseURI
@@ -2691,6 +2783,15 @@ func (n *c01Nodes) scan(o *c01Out, rnd *rand.Rand, bases []c01Base, thorough boo
 		for _, t := range times {
 			t := t
 			n.run(o, c01Call{kind: b.kind, text: b.text, at: &t, allowUntrusted: false, checkSig: true, label: b.label + "@t", base: b.label, mut: "time", path: strconv.FormatInt(t-c01T0, 10)})
+		}
+		// ... and back again on the SAME long-lived verifier: after verifications at times at which later keys / later document versions
+		// were valid, an earlier validation time still gets the answer of that earlier time (nothing is remembered across calls)
+		for _, t := range []int64{b.issued + 2, c01T0 + 2500, b.issued + 3, c01T0 + 3500} {
+			t := t
+			n.run(o, c01Call{kind: b.kind, text: b.text, at: &t, allowUntrusted: false, checkSig: true, label: b.label + "@t-again", base: b.label, mut: "time", path: strconv.FormatInt(t-c01T0, 10)})
+			if b.kind == "vc" {
+				n.run(o, c01Call{kind: "vc", text: b.text, at: &t, allowUntrusted: true, checkSig: true, via: "sig", label: b.label + "@t-sig", base: b.label, mut: "time", path: strconv.FormatInt(t-c01T0, 10)})
+			}
 		}
 		t := b.issued + 30
 		n.run(o, c01Call{kind: b.kind, text: b.text, at: &t, allowUntrusted: true, checkSig: false, label: b.label + "@nosig", base: b.label, mut: "flags", path: "allowUntrusted,noSig"})
